@@ -14,10 +14,22 @@
 (*          difference), 3 time steps.                                     *)
 (*  Exh   - rank 0, N = 2, ALL assignments from the value set for T = 1, 2 *)
 (*          (quick) and T = 3 over a 4-element set (thorough).             *)
+(*  Rep   - storage representations: T in {1, 3, 4}, N in {2, 3}, all      *)
+(*          shapes, value sets sized to the ranges of the narrow integer   *)
+(*          types (0/1 flags; |v| <= 11 / 15 / 181 / 255: products fit the  *)
+(*          type, sums of two do not; |v| up to 128 / 255 / 2000: products *)
+(*          leave it), timestep labels around 2 10^9; and WIDE series:     *)
+(*          T in {2, 3}, N in the hundreds / thousands (flags, integers,   *)
+(*          Gaussian integers).  The spec states per series which types    *)
+(*          hold it and what leaves their range (TimeCorr!IntReps).        *)
+(*  Long  - T in 257..300 (quick) / 256..1100 incl. powers of two and      *)
+(*          their neighbours (thorough), evenly and unevenly spaced,       *)
+(*          scalar / vector / tensor: one state per series, the terminal   *)
+(*          loop state is stated directly from the definition (StDirect).  *)
 (***************************************************************************)
 EXTENDS TimeCorr, TLC, Json
 
-CONSTANTS Tier, Part, SEED, SHARD, NSHARDS     \* Part = "fam" | "exh"
+CONSTANTS Tier, Part, SEED, SHARD, NSHARDS     \* Part = "fam" | "exh" | "rep" | "long"
 
 VARIABLES s, aux, st
 vars == <<s, aux, st>>
@@ -43,13 +55,15 @@ Patterns == << <<0, 1, 2, 3, 4>>,            \* linear, interval 1
                <<3, 500003, 1000004, 1500005, 2000006>> >> \* every interval after the first longer by one step
 Dts == << <<1, 500>>, <<1, 4>>, <<3, 1>> >>
 
-MkVal(T, N, rank, dim, c, fam) ==
-  LET V == ValSet(c)
-      pick(f, i, k, l) == V[1 + (Mix4(fam + 31 * SEED, f, i, 3 * k + l) % 6)]
+MkValV(V, T, N, rank, dim, fam) ==
+  LET pick(f, i, k, l) == V[1 + (Mix4(fam + 31 * SEED, f, i, 3 * k + l) % Len(V))]
   IN  [f \in 1..T |-> [i \in 1..N |->
         IF rank = 0 THEN pick(f, i, 0, 0)
         ELSE IF rank = 1 THEN [k \in 1..dim |-> pick(f, i, k, 0)]
         ELSE [k \in 1..dim |-> [l \in 1..dim |-> pick(f, i, k, l)]]]]
+MkVal(T, N, rank, dim, c, fam) == MkValV(ValSet(c), T, N, rank, dim, fam)
+
+AllInt == {IntTypes[j].name : j \in 1..Len(IntTypes)}
 
 NFam == IF Tier = "quick" THEN 6 ELSE 24
 Shapes == {<<0, 1>>, <<1, 2>>, <<1, 3>>, <<2, 2>>} \cup (IF Tier = "quick" THEN {} ELSE {<<2, 3>>})
@@ -57,7 +71,7 @@ Shapes == {<<0, 1>>, <<1, 2>>, <<1, 3>>, <<2, 2>>} \cup (IF Tier = "quick" THEN 
 FamInputs ==
   { <<[T |-> T, N |-> N, rank |-> sh[1], dim |-> sh[2], ts |-> SubSeq(Patterns[p], 1, T),
        val |-> MkVal(T, N, sh[1], sh[2], c, 100 * fam + 10 * p + T)],
-      [cplx |-> c, dt |-> Dts[1 + ((p + fam) % 3)], fam |-> fam, pat |-> p]>> :
+      [cplx |-> c, dt |-> Dts[1 + ((p + fam) % 3)], fam |-> fam, pat |-> p, tys |-> AllInt]>> :
       T \in 1..5, N \in (IF Tier = "quick" THEN {2} ELSE {1, 2, 3}), sh \in Shapes, c \in {0, 1},
       p \in 1..Len(Patterns), fam \in 1..NFam }
 
@@ -65,21 +79,87 @@ ExhSet(c, T) == IF T = 3 THEN {ValSet(c)[j] : j \in {1, 2, 4, 5}} ELSE {ValSet(c
 ExhT == IF Tier = "quick" THEN {1, 2} ELSE {1, 2, 3}
 ExhInputs ==
   UNION { { <<[T |-> tc[1], N |-> 2, rank |-> 0, dim |-> 1, ts |-> SubSeq(Patterns[p], 1, tc[1]), val |-> v],
-              [cplx |-> tc[2], dt |-> Dts[1 + (p % 3)], fam |-> 0, pat |-> p]>> :
+              [cplx |-> tc[2], dt |-> Dts[1 + (p % 3)], fam |-> 0, pat |-> p, tys |-> AllInt]>> :
               p \in {2, 5}, v \in [1..tc[1] -> [1..2 -> ExhSet(tc[2], tc[1])]] } :
           tc \in ExhT \X {0, 1} }
 
-Inputs == IF Part = "fam" THEN FamInputs ELSE ExhInputs
+\* ---- storage representations: value sets sized to the ranges of the narrow integer types ----
+R(x) == <<x, 0>>
+Flags == << R(1), R(1), R(0), R(1), R(1), R(1) >>
+RepSets == <<
+  Flags,                                                            \* bool / any type: sums of two leave bool
+  << R(11), R(0 - 11), R(9), R(0 - 10), R(0), R(7) >>,              \* int8: products fit, sums of two leave
+  << R(100), R(0 - 128), R(127), R(0 - 90), R(12), R(0) >>,         \* int8: products leave
+  << R(15), R(14), R(0), R(13), R(15), R(9) >>,                     \* uint8: products fit, sums leave (int8: products leave)
+  << R(200), R(255), R(16), R(0), R(128), R(17) >>,                 \* uint8: products leave
+  << R(181), R(0 - 181), R(150), R(0 - 170), R(0), R(99) >>,        \* int16: products fit, sums of two leave
+  << R(2000), R(0 - 1500), R(182), R(0 - 183), R(0), R(700) >>,     \* int16: products leave
+  << R(255), R(254), R(0), R(200), R(255), R(131) >>,               \* uint16: products fit, sums leave
+  << R(2000), R(256), R(300), R(0), R(1000), R(1999) >> >>          \* uint16: products leave
+RepPatterns == << <<2000000000, 2000000001, 2000000002, 2000000003>>,   \* evenly spaced, labels beyond 2^24 (and 2^30)
+                  <<2000000000, 2000000001, 2000000003, 2000000004>>,   \* unevenly spaced from T = 3, such labels
+                  <<100, 105, 110, 115>>,
+                  <<0, 2, 4, 7>> >>                                     \* uneven only in the last difference (T = 4)
+NarrowInputs ==
+  { <<[T |-> T, N |-> N, rank |-> sh[1], dim |-> sh[2], ts |-> SubSeq(RepPatterns[p], 1, T),
+       val |-> MkValV(RepSets[v], T, N, sh[1], sh[2], 1000 * v + 10 * p + T)],
+      [cplx |-> 0, dt |-> Dts[1 + ((p + v) % 3)], fam |-> v, pat |-> p, tys |-> AllInt]>> :
+      T \in {1, 3, 4}, N \in {2, 3}, sh \in {<<0, 1>>, <<1, 2>>, <<1, 3>>, <<2, 2>>},
+      p \in 1..Len(RepPatterns), v \in 1..Len(RepSets) }
+\* wide series: many particles, few frames (size thresholds can be on N as well as on T)
+WideShapes == IF Tier = "quick"
+              THEN {<<0, 1, 600>>, <<0, 1, 2500>>, <<1, 2, 300>>, <<1, 3, 1200>>, <<2, 2, 200>>, <<2, 2, 700>>}
+              ELSE {<<0, 1, 600>>, <<0, 1, 2500>>, <<0, 1, 10007>>, <<1, 2, 300>>, <<1, 3, 1200>>, <<1, 2, 4099>>,
+                    <<2, 2, 200>>, <<2, 2, 700>>, <<2, 3, 1030>>}
+WidePatterns == << <<0, 1, 2>>, <<0, 1, 3>> >>
+WideSets == << Flags, RealSet, GaussSet >>
+WideInputs ==
+  { <<[T |-> T, N |-> sh[3], rank |-> sh[1], dim |-> sh[2], ts |-> SubSeq(WidePatterns[p], 1, T),
+       val |-> MkValV(WideSets[v], T, sh[3], sh[1], sh[2], 7000 + 100 * v + 10 * p + T)],
+      [cplx |-> IF v = 3 THEN 1 ELSE 0, dt |-> Dts[1 + ((p + v) % 3)], fam |-> 100 + v, pat |-> p,
+       tys |-> AllInt]>> :
+      T \in {2, 3}, sh \in WideShapes, p \in 1..2, v \in 1..3 }
+RepInputs == NarrowInputs \cup WideInputs
+
+\* ---- long series: <<T, N, rank, dim, complex, spacing>> ----
+\* spacing 1: evenly spaced; 2: evenly spaced except the last difference; 3: differences growing (k^2)
+LongSpecs ==
+  LET quick == << <<300, 2, 0, 1, 0, 1>>, <<257, 2, 0, 1, 1, 1>>, <<300, 2, 1, 2, 0, 1>>, <<291, 1, 1, 3, 1, 1>>,
+                  <<258, 2, 2, 2, 0, 1>>, <<300, 2, 0, 1, 0, 2>>, <<270, 2, 1, 2, 1, 3>>, <<259, 1, 2, 2, 0, 2>> >>
+      Ts    == <<256, 257, 300, 365, 511, 512, 513, 700, 1023, 1024, 1025, 1100>>
+      more  == [j \in 1..(2 * Len(Ts)) |->
+                  IF j <= Len(Ts) THEN <<Ts[j], 2, 0, 1, 0, 1>> ELSE <<Ts[j - Len(Ts)], 1, 1, 2, 1, 1>>]
+      logs  == << <<512, 2, 0, 1, 1, 2>>, <<1025, 1, 1, 2, 0, 3>>, <<600, 1, 2, 2, 1, 3>>, <<400, 2, 2, 2, 0, 1>> >>
+  IN  IF Tier = "quick" THEN quick ELSE quick \o more \o logs
+LongTs(T, sp, j) ==
+  LET t0 == 100 * (j % 3)
+      iv == 1 + (j % 4)
+  IN  [k \in 1..T |-> IF sp = 3 THEN t0 + (k - 1) * (k - 1)
+                       ELSE t0 + iv * (k - 1) + (IF sp = 2 /\ k = T THEN iv ELSE 0)]
+LongInput(j) ==
+  LET q == LongSpecs[j] IN
+  <<[T |-> q[1], N |-> q[2], rank |-> q[3], dim |-> q[4], ts |-> LongTs(q[1], q[6], j),
+     val |-> MkVal(q[1], q[2], q[3], q[4], q[5], 9000 + j)],
+    [cplx |-> q[5], dt |-> Dts[1 + (j % 3)], fam |-> 200 + j, pat |-> q[6], tys |-> {"int8", "int16"}]>>
+
+Inputs == IF Part = "fam" THEN FamInputs ELSE IF Part = "exh" THEN ExhInputs ELSE RepInputs
 
 \* shard key from the data itself
 Key(x) == LET ser == x[1] IN
   (ser.T * 7 + ser.N * 3 + ser.rank + ser.dim + x[2].cplx + x[2].pat * 5 + x[2].fam * 11
    + SumSeq([f \in 1..ser.T |-> P(ser, f, 1) + 1000])) % NSHARDS
 
-Init == /\ \E x \in Inputs : /\ Key(x) = SHARD
-                             /\ s = x[1] /\ aux = x[2]
-                             /\ Defined(x[1])
-        /\ st = StInit(s)
+Long == Part = "long"
+Init == IF Long
+        THEN \E j \in 1..Len(LongSpecs) :
+               /\ j % NSHARDS = SHARD
+               /\ s = LongInput(j)[1] /\ aux = LongInput(j)[2]
+               /\ Defined(s)
+               /\ st = StDirect(s)          \* the T (T + 1) / 2 loop steps are not enumerated for long series
+        ELSE /\ \E x \in Inputs : /\ Key(x) = SHARD
+                                  /\ s = x[1] /\ aux = x[2]
+                                  /\ Defined(x[1])
+             /\ st = StInit(s)
 Acc  == /\ ~st.done
         /\ st' = StAcc(s, st)
         /\ UNCHANGED <<s, aux>>
@@ -88,10 +168,10 @@ Spec == Init /\ [][Next]_vars
 
 \* ---- clauses of C14 on the model ----
 InvCounts    == CountsPerLag(s, st)
-InvPairs     == PairsAreDefinition(s, st)
-InvAlgDef    == AlgorithmEqualsDefinition(s, st)
+InvPairs     == Long \/ PairsAreDefinition(s, st)
+InvAlgDef    == Long \/ AlgorithmEqualsDefinition(s, st)      \* long series: st IS the definition (StDirect)
 InvLagZero   == LagZeroIsOne(s, st)
-InvConjSym   == ConjugateSymmetric(s)
+InvConjSym   == Long \/ ConjugateSymmetric(s)
 InvSingle    == SingleFrame(s)
 InvLogOrigin == LogIsOriginZero(s)
 InvKind      == (Kind(s.ts) = "linear") <=> (\A k \in 1..(s.T - 1) : s.ts[k + 1] - s.ts[k] = s.ts[2] - s.ts[1])
@@ -102,11 +182,15 @@ Case ==
   [ m |-> "TimeCorr", T |-> s.T, N |-> s.N, rank |-> s.rank, dim |-> s.dim, cplx |-> aux.cplx,
     ts |-> s.ts, dt |-> aux.dt, val |-> s.val, kind |-> Kind(s.ts),
     counts |-> st.counts,
-    corr   |-> [k \in 1..s.T |-> Corr(s, k - 1)],
-    corrT  |-> [k \in 1..s.T |-> CorrTerm(s, k - 1)],
+    corr   |-> IF Long THEN << >> ELSE [k \in 1..s.T |-> Corr(s, k - 1)],
+    corrT  |-> [k \in 1..s.T |-> IF Long THEN StCorrTerm(st, k - 1) ELSE CorrTerm(s, k - 1)],
+    \* storage types that hold the series (with what leaves their range) / in which the evaluation is exact
+    ireps  |-> IntReps(s, aux.tys),
+    freps  |-> FloatReps(s),
+    dtInt  |-> aux.dt[2] = 1,
     tT     |-> [k \in 1..s.T |-> TimeTerm(s, k - 1, aux.dt[1], aux.dt[2])],
     \* does dropping the conjugate change some lag?  (non-vacuity witness for the harness statistics)
-    conjMatters |-> \E a, b \in 1..s.T :
+    conjMatters |-> ~Long /\ \E a, b \in 1..s.T :
         SumSeq([i \in 1..s.N |-> IF s.rank = 0 THEN GPlainRe(s.val[a][i], s.val[b][i]) ELSE 0])
           # (IF s.rank = 0 THEN P(s, a, b) ELSE 0) ]
 Emit == st.done => PrintT(ToJson(Case))
